@@ -387,7 +387,26 @@ class Ctx:
         missing = [n for n in names if n not in pa]
         if missing:
             self.log('warning: theorems without Print Assumptions:', missing)
+        if ok and not bad and self.tier == 'thorough' and not self.replay:
+            self.coqchk()
         return ok and not bad
+
+    def coqchk(self, timeout=1500):
+        """thorough tier: re-check the compiled property file and everything it depends on with the independent
+        checker; its context summary (axioms, type-in-type, unsafe fixpoints, assumed positivity) goes into the evidence"""
+        cmd = ['timeout', str(timeout), 'coqchk', '-silent', '-o'] + self.coq_args() + [f'Chk.{self.pid}']
+        t = time.time()
+        r = subprocess.run(cmd, cwd=self.bdir, capture_output=True, text=True)
+        out = r.stdout + r.stderr
+        summ = out[out.find('CONTEXT SUMMARY'):] if 'CONTEXT SUMMARY' in out else out[-1500:]
+        summ = re.sub(r'\s+', ' ', summ)
+        self.extra['coqchk'] = {'exit': r.returncode, 'seconds': round(time.time() - t, 1), 'summary': summ[:3000]}
+        self.checker_cmds.append(f'coqchk -silent -o <same -Q> Chk.{self.pid}')
+        self.log(f'coqchk: exit {r.returncode} ({time.time() - t:.0f}s) {summ[:200]}')
+        bad = r.returncode != 0 or re.search(r'type-in-type: (?!<none>)|unsafe \(co\)fixpoints: (?!<none>)|positivity is assumed: (?!<none>)', summ)
+        if bad:
+            self.broken.append({'kind': 'proof', 'name': 'coqchk', 'detail': out[-2000:]})
+        return not bad
 
     # ---- correspondence
     def corr(self, name, imports, fname, eqb, cases, per_file=400, timeout=300, nontrivial=None,
